@@ -5,7 +5,7 @@ validates the model of the regex `\\b|\\B` (every scalar boundary) against the r
 from cases import evaluate, run_corpus, normalise_field_case, cli_roundtrip
 from common import build_tuc
 from common import case_line, parse_result
-from gen import rand_bounds
+from gen import medium_run, rand_bounds
 
 LEVEL = "proof"
 BIG_IO = lambda a: "-c" in a        # which command lines of cases.rand_cli the large-input stream keeps
@@ -24,6 +24,8 @@ def _run_once(chk):
         z = rng.random() < 0.25
         eol = b"\0" if z else b"\n"
         recs = ["".join(rng.choice(CHARS) for _ in range(rng.randint(0, 6))) for _ in range(rng.randint(1, 3))]
+        if rng.random() < 0.03:
+            recs[0] += "".join(medium_run(rng, CHARS))          # a record of 15-513 characters
         inp = eol.join(r.encode() for r in recs) + (eol if rng.random() < 0.7 else b"")
         bs, bt = rand_bounds(rng, fmt_p=0.3, k=5)
         c = {"kind": "cut", "eng": rng.choice(["str", "auto"]), "bt": "c", "d": b"", "b": bt, "in": inp, "z": z, "j": True, "r": b""}
